@@ -117,3 +117,8 @@ Lemma fnot_swaps f e :
   /\ (filter_sem (FNot f) e = FNoFunc <-> filter_sem f e = FNoFunc)
   /\ filter_sem (FNot (FNot f)) e = filter_sem f e.
 Proof. simpl. destruct (filter_sem f e); simpl; intuition discriminate. Qed.
+
+Lemma filters_ordered t e :
+  (filter_sem (FEq t) e = FYes -> filter_sem (FCause t) e = FYes)
+  /\ (filter_sem (FCause t) e = FYes -> filter_sem (FIs t) e = FYes).
+Proof. split; [apply feq_fcause|apply fcause_fis]. Qed.
